@@ -25,6 +25,7 @@ import (
 	"github.com/scrapli/scrapligo/driver/network"
 	"github.com/scrapli/scrapligo/driver/opoptions"
 	"github.com/scrapli/scrapligo/driver/options"
+	"github.com/scrapli/scrapligo/response"
 	"github.com/scrapli/scrapligo/transport"
 	"github.com/scrapli/scrapligo/util"
 
@@ -134,6 +135,10 @@ type Desc struct {
 	// does): "ssh-nopw" = no prompt, the hello is there at open; "ssh-pw" = a known-hosts warning and
 	// a password prompt come first, the hello follows once the password line was written.
 	Auth string `json:"auth,omitempty"`
+	// Later: after the two get requests also send get-config and lock (requests with empty
+	// elements); ForceSelfClosing: options.WithNetconfForceSelfClosingTags() is passed.
+	Later            bool `json:"later,omitempty"`
+	ForceSelfClosing bool `json:"force_self_closing,omitempty"`
 	// NonASCII: number of capabilities containing 2-, 3- and 4-byte UTF-8 characters.
 	NonASCII int `json:"non_ascii,omitempty"`
 	// PrefVia says how the preference in force at Open time (Preferred) was stated: "" = through
@@ -811,6 +816,28 @@ func gen(tier string, seed int64) []mon.Case {
 			}
 		}
 	}
+	// --- later traffic on the client side: requests with empty elements, self-closing forced or
+	// not, for every succeeding cell x echo; everything written after the hello, Close included, is
+	// decoded strictly under the selected framing (that last part is done for every opened session)
+	perLater := 2
+	if tier == "thorough" {
+		perLater = 40
+	}
+	r9 := rand.New(rand.NewSource(seed*7919 + 9999999909))
+	for k := 0; k < perLater; k++ {
+		for _, c := range cells {
+			if table[c] == fail {
+				continue
+			}
+			for _, force := range []bool{false, true} {
+				for _, echo := range []bool{false, true} {
+					d := GenDesc(r9, c, echo, -1)
+					d.Later, d.ForceSelfClosing = true, force
+					add(d)
+				}
+			}
+		}
+	}
 	// --- non-ASCII characters in capability URIs x fine segmentations (1-byte reads included)
 	perUTF, perAuth := 4, 1
 	if tier == "thorough" {
@@ -1241,6 +1268,9 @@ func RunDesc(d Desc) mon.Result {
 	if d.Auth != "" {
 		opts = append(opts, options.WithAuthPassword(authPassword), options.WithAuthUsername("admin"))
 	}
+	if d.ForceSelfClosing {
+		opts = append(opts, options.WithNetconfForceSelfClosingTags())
+	}
 	for _, f := range d.Foreign {
 		opts = append(opts, foreignOption(f, len(hello)))
 	}
@@ -1648,11 +1678,31 @@ func RunDesc(d Desc) mon.Result {
 		if helloOK && drv.SelectedVersion == want {
 			wantFraming := map[string]string{"1.0": "eom", "1.1": "chunked"}[want]
 			before := len(cs)
-			for k := 1; k <= 2; k++ {
+			nRPC := 2
+			if d.Later {
+				nRPC = 4
+				obs["later_traffic_sessions"] = 1
+				tags = append(tags, fmt.Sprintf("later-traffic:force-self-closing=%v", d.ForceSelfClosing))
+			}
+			for k := 1; k <= nRPC; k++ {
 				filter := fmt.Sprintf("<%s-req%d/>", token, k)
 				needed := 0
 				t0 = time.Now()
-				r, rerr := drv.Get(filter, opoptions.WithTimeoutOps(rpcTimeout))
+				var r *response.NetconfResponse
+				var rerr error
+				opName := "get"
+				switch k {
+				case 1, 2:
+					r, rerr = drv.Get(filter, opoptions.WithTimeoutOps(rpcTimeout))
+				case 3:
+					opName = "get-config"
+					r, rerr = drv.GetConfig("running", opoptions.WithTimeoutOps(rpcTimeout))
+				default:
+					opName = "lock"
+					// Lock takes no per-call timeout: bound it by the channel's
+					drv.Channel.TimeoutOps = rpcTimeout
+					r, rerr = drv.Lock("candidate")
+				}
 				snap()
 				conn.Do(func() { needed = conn.Generated() })
 				if protoErr != "" {
@@ -1700,19 +1750,66 @@ func RunDesc(d Desc) mon.Result {
 					bad(1, "c09/rpc-framing:"+want, "rpc %d arrived in %s framing, selected version is %s", k, m.Framing, want)
 				case uerr != nil || rd.XMLName.Local != "rpc" || rd.XMLName.Space != baseNS:
 					bad(1, "c09/rpc-framing:"+want+":payload-not-an-rpc", "rpc %d: payload decoded under %s framing is not an rpc document (%v): %q", k, wantFraming, uerr, clip(string(m.Payload)))
-				case !strings.Contains(rd.Inner, fmt.Sprintf("%s-req%d", token, k)):
+				case k <= 2 && !strings.Contains(rd.Inner, fmt.Sprintf("%s-req%d", token, k)):
 					bad(1, "c09/rpc-content", "rpc %d does not carry the filter: %q", k, clip(string(m.Payload)))
+				case k > 2 && !strings.Contains(rd.Inner, "<"+opName):
+					bad(1, "c09/rpc-content", "rpc %d is not a %s: %q", k, opName, clip(string(m.Payload)))
 				case !onlyReturns(m.PreGap):
 					bad(1, "c09/rpc-framing:"+want+":gap", "bytes other than returns before rpc %d: %q", k, m.PreGap)
 				case r.Failed != nil || !strings.Contains(r.Result, fmt.Sprintf("<%s>%d # x\n#y</%s>", token, k, token)):
 					bad(1, "c09/rpc-reply:"+want+fmt.Sprintf(":echo=%v", d.Echo), "rpc %d: reply not returned intact: failed=%v result=%q", k, r.Failed, clip(r.Result))
 				default:
 					obs["rpcs_checked"]++
+					if k > 2 {
+						obs["empty_element_rpcs_checked"]++
+					}
 				}
 				if len(cs) > before {
 					break
 				}
 			}
+		}
+	}
+
+	// (4) Close, then everything the client wrote after its hello - up to and including what Close
+	// wrote - must be nothing or messages that decode strictly under the selected framing
+	if opened && want != fail && len(cs) == 0 && inconclusive == "" && obs["client_hellos_checked"] == 1 && obs["rpc_failed_on_write_fault"] == 0 {
+		done := make(chan struct{})
+		go func() { defer func() { recover(); close(done) }(); drv.Close() }()
+		select {
+		case <-done:
+			var msgs []*ncsim.Msg
+			var wire, left []byte
+			var protoErr string
+			conn.Do(func() {
+				msgs = append(msgs, srv.Msgs...)
+				wire = append(wire, srv.Wire...)
+				left = srv.Leftover()
+				protoErr = srv.ProtoErr
+			})
+			wantFraming := map[string]string{"1.0": "eom", "1.1": "chunked"}[want]
+			after := wire[msgs[0].WireEnd:]
+			switch {
+			case protoErr != "":
+				bad(1, "c09/later-traffic:"+want+":strict-decoder-rejects", "after Close: the server's strict %s decoder rejected bytes the client wrote after its hello: %s; all bytes after the hello: %q", wantFraming, protoErr, clip(string(after)))
+			case !onlyReturns(left):
+				bad(1, "c09/later-traffic:"+want+":bytes-outside-any-message", "after Close: the client wrote bytes that are not part of a %s-framed message: %q; all bytes after the hello: %q", wantFraming, clip(string(left)), clip(string(after)))
+			default:
+				for i, m := range msgs[1:] {
+					var rd rpcDoc
+					if e := xml.Unmarshal(m.Payload, &rd); m.Framing != wantFraming || !onlyReturns(m.PreGap) || e != nil || rd.XMLName.Local != "rpc" || rd.XMLName.Space != baseNS {
+						bad(1, "c09/later-traffic:"+want+":not-a-framed-rpc", "after Close: client message %d (framing %s, %d gap bytes) is not a well-framed rpc (%v): %q", i+1, m.Framing, len(m.PreGap), e, clip(string(m.Payload)))
+						break
+					}
+				}
+				if len(cs) == 0 {
+					obs["sessions_decoded_through_close"] = 1
+					obs["client_bytes_after_hello_decoded"] += int64(len(after))
+					obs["client_messages_written_during_close"] += int64(len(msgs) - 1 - int(obs["rpcs_checked"]))
+				}
+			}
+		case <-time.After(5 * time.Second):
+			// a hanging Close is C07's subject
 		}
 	}
 
@@ -1792,7 +1889,8 @@ func init() {
 			"capabilities of the hello, look-alikes, absent ones) and repeated lookups after Open judged against the hello sent; a one-shot transport write error at write 1, 2 (the open sequence) and 3 for every succeeding cell x echo; " +
 			"server hello sent 3/20/60 ms after open or at the client's first write, whichever is earlier, x echo on/off x placement relative to the echo (own message before it / contiguous with it / after it) for all cells; " +
 			"transport whose Close returns an error for all cells and hello-less messages; " +
-			"capabilities containing 2-, 3- and 4-byte UTF-8 characters under 1-, 2-, 3-byte, geometric and mixed reads for all cells; the matrix over a transport that asks for in-channel ssh authentication " +
+			"get-config and lock (requests with empty elements) with self-closing tags forced or not after the two gets for every succeeding cell x echo; every opened session is closed and ALL client bytes after the hello, Close included, " +
+			"are decoded strictly under the selected framing; capabilities containing 2-, 3- and 4-byte UTF-8 characters under 1-, 2-, 3-byte, geometric and mixed reads for all cells; the matrix over a transport that asks for in-channel ssh authentication " +
 			"(no prompt / known-hosts warning + password prompt, hello after the password line) with hellos of 10-60 capabilities (> 1100 and > 4200 bytes); the preference stated, changed or withdrawn by assigning the exported Driver.PreferredVersion between NewDriver and Open (field only; option 1.0/1.1 then field) for all cells; " +
 			"option lists that also carry 1-4 options meant for CLI drivers (prompt pattern, return char, small search depth, failed-when, privilege levels/desired privilege, small read size, login patterns) in PRNG order for all cells; " +
 			"capability texts written with the five predefined entities, literal > \" ', and escaped escapes (&amp;amp; &amp;lt; &amp;#38; &amp;#x26; ...) in query strings and paths, reference = encoding/xml character data. Non-trivial = prefixed element names, or the server's first message delivered in >= 2 transport reads, or a cell that must fail. " +
@@ -1810,6 +1908,7 @@ func init() {
 			"capability escape forms judged: the five predefined entities and escaped escapes; numeric character references ON THE WIRE (&#38;, &#x26;) are generated only with numericRefsOnWire (off: the pinned library leaves them unresolved - reported finding, decision pending)",
 			"the preference that counts is the value of the exported Driver.PreferredVersion when Open is called, however it got there (option, direct assignment, cleared)",
 			"in-channel ssh authentication: at most one password prompt, answered once with the configured password; nothing in the banner or the hello matches the library's ssh error phrases, password or passphrase patterns; no echo while the password is asked for",
+			"client-side later traffic: between the hello and the end of Close the client may write nothing but returns and complete messages in the selected framing whose payload is an rpc document (a best-effort close-session would be fine, unframed or mis-sized bytes are not); sessions in which an injected write error cut a request short are exempt",
 			"foreign options: a user option that does not apply to NETCONF session establishment must not change the outcome; WithReturnChar other than LF only where the table does not select 1.1 (the library writes the return char as the LF of the chunked framing); WithPromptSearchDepth >= 32 (see next)",
 			"a LF after the hello's delimiter is generated when an earlier LF lies within the last PromptSearchDepth bytes (multi-line layouts), and in a small dedicated family where it does not (one-line hello longer than the depth, default 1000 and 8/12): there the pinned channel cuts its search window at that LF and never sees the delimiter - KNOWN finding, key c09/open-timeout:one-line-hello-over-search-depth-then-lf, decided from the descriptor; any other open timeout keeps the generic key",
 			"trusted base: ncwire strict codec, ncsim server model, encoding/xml, the table (12 lines)",
